@@ -336,7 +336,9 @@ pub fn parse_rootdefinition_constantbuffer(
         cb_ir.lang_binding.set = Some(binding_group);
     }
 
-    assert!(!attribute_result.is_bindless);
+    if attribute_result.is_bindless {
+        return Err(TyperError::UnexpectedBindless(cb_ir.name.location));
+    }
 
     cb_ir.members = members;
 
